@@ -166,6 +166,25 @@ class PoolSum(sp.Expr):
     def free_symbols(self) -> set[sp.Basic]:
         return super().free_symbols - {s for s, _ in self.indices}
 
+    def _eval_subs(self, old, new, **hints):
+        # summation indices are bound variables and cannot be substituted
+        if any(old == idx for idx, _ in self.indices):
+            return self
+        new_expression = self.expression._subs(old, new, **hints)  # noqa: SLF001
+        new_indices = [
+            (idx, tuple(v._subs(old, new, **hints) for v in values))  # noqa: SLF001
+            for idx, values in self.indices
+        ]
+        return self.func(new_expression, *new_indices)
+
+    def _xreplace(self, rule):
+        if self in rule:
+            return rule[self], True
+        bound_indices = {idx for idx, _ in self.indices}
+        if any(idx in rule for idx in bound_indices):
+            rule = {old: rule[old] for old in rule if old not in bound_indices}
+        return super()._xreplace(rule)
+
     @override
     def doit(self, deep: bool = True) -> sp.Expr:  # type: ignore[misc]
         expr = self.evaluate()
